@@ -189,6 +189,26 @@ def judge(c, d, out, rc, err):
                 "the file and continues: %s %s is %r, in the uninterrupted run %r"
                 % (it0 + K, R.auto_freq(c, K), "at step %d" % (it0 + t) if t is not None else "in the final state", obs, y, x),
                 K, "auto", t=t, obs=obs)
+    # state handed over as a buffer in memory: same as through a file
+    for K, fmt in c.get("buffer_Ks", []):
+        lab = "%d_%s" % (K, fmt)
+        MA, MB, B = runs.get("MA_" + lab), runs.get("MB_" + lab), runs.get("B_" + lab)
+        if MA is None or MB is None:
+            add("harness", "harness:%s:run-missing" % fam, "run M_%s missing (rc=%s) %s" % (lab, rc, err[-200:]), K, fmt)
+            continue
+        ev = [e for e in MA["events"] + MB["events"] if "err=ok" not in e]
+        if ev:
+            add("load-error", "buffer:%s:%s-error" % (fam, ev[0].split()[0].lower()),
+                "state kept as a %s buffer after step %d, fresh instance: %s" % (fmt, it0 + K, ev[0]), K, fmt)
+            continue
+        if B is None:
+            continue
+        dd = first_diff(B["steps"], MB["steps"], pre + "B_%s.colvars.state" % lab, pre + "MB_%s.colvars.state" % lab, off=0, tol=0.0)
+        if dd:
+            t, (obs, x, y) = dd
+            add("resume", "buffer:%s:%s" % (fam, obs_class(obs)),
+                "state after step %d handed to a fresh instance as a %s buffer in memory instead of a file: %s %s is %r, through the "
+                "file %r" % (it0 + K, fmt, "at step %d" % (it0 + K + t) if t is not None else "in the final state", obs, y, x), K, fmt)
     # run boundary in the same session: step K is computed twice, nothing is reloaded
     for K in c.get("boundary_Ks", []):
         Rr = runs.get("R_%d" % K)
